@@ -111,6 +111,11 @@ def propagation(run, f):
                     t = strip_wrappers(tr.norm(tr.operand(rv["ops"][i]))) if i is not None else None
                     src_adt = None
                     good = False
+                    bd0 = bd
+                    if t is not None and t[0] in ("upvar", "field", "deref"):
+                        # built inside a closure: the captured value, in the enclosing body
+                        bd, t = sendpaths.get(f).lift(bd0, t)
+                        t = strip_wrappers(t)
                     if t is not None:
                         if t[0] == "call" and t[2] == "Identity::new" and rv["adt"] == AR:
                             good = True         # the spawn function's fresh handle (uniqueness of that site: O11.1)
@@ -121,6 +126,7 @@ def propagation(run, f):
                             a = f.adts.get(pty.defn) if pty.k == "adt" else None
                             if a and pty.defn in (AR, AW) and a["variants"][0]["fields"][t[1]]["name"] == "id":
                                 good = True
+                    bd = bd0
                     run.require(good, "O11.2", "id-propagated:%s:%s" % (rv["adt"].split("::")[-1], (bd.root or bd.defn).split("::")[-1]),
                                 "%s built in %s with id %s" % (rv["adt"], bd.name, show(t) if t else None), "id copied from the parameter / self.id", loc=f.span(st["span"]).loc)
     run.require(n >= 5, "O11.2", "construction-floor", "only %d ActorRef/ActorWeak constructions found" % n, "%d handle construction sites" % n)
